@@ -1768,6 +1768,14 @@ _orig_container_call = container_call
 
 def container_call(eng, st, target, name, args, kwargs, node=None):  # noqa: F811
     c = eng.deref(st, target)
+    from .engine import OPAQUE as _OPQ
+    if c is _OPQ:
+        yield st, (None if name in ("__setitem__", "append", "add", "update", "extend") else _OPQ)   # a local the unit declared irrelevant
+        return
+    if isinstance(c, CDict) and not c.items and isinstance(target, Loc) and name in ("__setitem__", "setdefault") and args and isinstance(args[0], SV):
+        # an empty dict literal that now receives a symbolic key: switch to the symbolic representation
+        st.store(target, PendingEmpty("dict", True))
+        c = eng.deref(st, target)
     if isinstance(c, PendingEmpty) and isinstance(target, Loc):
         # first use fixes the representation
         if c.kind == "set":
